@@ -7,6 +7,9 @@ import (
 	"os/exec"
 	"strings"
 	"time"
+
+	"github.com/gobuffalo/plush/v5"
+	"github.com/gobuffalo/plush/v5/helpers/hctx"
 )
 
 // ---- C04: evaluation is total -------------------------------------------------
@@ -58,6 +61,10 @@ func (n nullS) Interface() interface{} {
 	return n.S
 }
 
+// helper-context parameter kinds
+type namedHC plush.HelperContext
+type implHC struct{ hctx.HelperContext } // merely implements the interface
+
 type docB struct{ ID []byte }
 type docS struct{ Slug []string }
 type docM struct{ ID map[string]int }
@@ -83,6 +90,26 @@ func c04extra() map[string]interface{} {
 		// uncomparable dynamic value
 		"xnilfn": (func() int)(nil), "xnilstrer": (*strer)(nil), "xnilhtmler": (*htmlerT)(nil), "xembed": embO{Y: "y"}, "xpembed": &embO{Y: "y"}, "xdynkey": dynK{V: []int{1}},
 		"xidbytes": docB{ID: []byte{1, 2}}, "xidzero": docB{}, "xslugs": &docS{Slug: []string{"a"}}, "xidmap": docM{ID: map[string]int{"a": 1}}, "xidlist": []interface{}{docB{ID: []byte{3}}},
+		"xhcnamed": func(h namedHC) (string, error) {
+			hh := plush.HelperContext(h)
+			if hh.HasBlock() {
+				return hh.Block()
+			}
+			return fmt.Sprint(hh.Value("vi")), nil
+		},
+		"xhcvar": func(h plush.HelperContext, rest ...string) (string, error) {
+			if h.HasBlock() {
+				return h.Block()
+			}
+			return fmt.Sprint(h.Value("vi"), rest), nil
+		},
+		"xhcimpl": func(h implHC) string { return "impl" },
+		"xhciface": func(h hctx.HelperContext) (string, error) {
+			if h.HasBlock() {
+				return h.Block()
+			}
+			return fmt.Sprint(h.Value("vi")), nil
+		},
 		// nullable values: set, unset, and typed nil pointers to them (alone and as elements)
 		"xnull": nullS{S: "n", Valid: true}, "xnullunset": nullS{}, "xpnull": &nullS{S: "n", Valid: true}, "xnilnull": (*nullS)(nil), "xnulls": []interface{}{(*nullS)(nil), nullS{}},
 	}
@@ -217,6 +244,12 @@ func init() {
 				}
 			}
 		}
+		// helpers whose context parameter has a named type, comes before a variadic tail, or is an
+		// explicit nil: the context they get must be usable (scope and block present)
+		for _, t := range []string{"<%= xhcnamed() %>", "<%= xhcnamed(nil) %>", "<%= xhcnamed() { %>b<% } %>", "<%= xhcvar(nil, \"a\") %>", "<%= xhcvar(nil) { %>b<% } %>",
+			"<%= xhcvar(nil, \"a\", \"b\") { %>b<%= vi %><% } %>", "<%= xhcimpl() %>", "<%= xhcimpl(nil) %>", "<%= xhciface(nil) { %>b<% } %>", "<%= xhciface() %>"} {
+			e.c04case("helper-context-kinds", t, false, extra)
+		}
 		for _, x := range []string{"xfnerr", "xfnpanic", "xfnvar", "xfnmap", "xchan", "xtime"} {
 			for _, al := range lists[:40] {
 				e.c04case("callx", fmt.Sprintf("<%%= %s(%s) %%>", x, al), false, extra)
@@ -238,7 +271,10 @@ func init() {
 				e.c04case("builtin", fmt.Sprintf("<%%= %s(%s) %%>", b, al), mod, nil)
 			}
 			for _, x := range xnames {
-				e.c04case("builtinx", fmt.Sprintf("<%%= %s(%s) %%><%%= %s(1, %s) %%>", b, x, b, x), false, extra)
+				// one call per template: a rejected first call must not hide the second
+				e.c04case("builtinx", fmt.Sprintf("<%%= %s(%s) %%>", b, x), false, extra)
+				e.c04case("builtinx", fmt.Sprintf("<%%= for (g) in %s(1, %s) { %%><%%= g %%><%% } %%>", b, x), false, extra)
+				e.c04case("builtinx", fmt.Sprintf("<%%= %s(2, %s) %%>", b, x), false, extra)
 			}
 			// value-dependent paths: strings longer than the helpers' default sizes, multi-byte
 			for _, al := range []string{"vlong", "vlonga", "vlong, {size: 45}", `vlong, {size: 45, trail: ""}`, "vlong, {size: 21}", "vlong, {size: 19, trail: vlong}", "vlonga, {size: 70, trail: vlong}", "vlonga, {size: 71}", `vlong + vlonga, {size: 64}`, "2, vlong", "vlong, vlonga"} {
